@@ -147,7 +147,8 @@ checks = {
 if __name__ == '__main__':
     import os
     here = os.path.dirname(os.path.abspath(__file__))
-    SUITE = {'c02': "lambda e: e[0] == 'obs'", 'c04': "lambda e: e[0] in ('cs', 'ce') and e[1] == 'kill'"}
+    SUITE = {'c02': "lambda e: e[0] == 'obs'", 'c04': "lambda e: e[0] in ('cs', 'ce') and e[1] == 'kill'",
+             'c05': "lambda e: e[0] == 'obs' or (e[0] in ('cs', 'ce') and e[1] in ('pause', 'play'))"}
     for name, c in checks.items():
         c['suite'] = ('\n        suite_traces=%s,' % SUITE[name]) if name in SUITE else ''
         open(os.path.join(here, name + '.py'), 'w').write(tmpl.format(**c))
